@@ -52,6 +52,10 @@ pub fn name() -> BoxedStrategy<Vec<u8>> {
             // and as a whole (patches are recorded by their file name only)
             let mut parts = dirs;
             parts.push(last.clone());
+            // a leading "./" is part of the name (1 name in 16)
+            if last.len() % 16 == 3 && !parts.is_empty() {
+                parts.insert(0, b".".to_vec());
+            }
             let joined = parts.join(&b"/"[..]);
             if m::unambiguous(&joined) {
                 joined
